@@ -60,12 +60,14 @@ def plan(tier, seed):
     if tier == "quick":
         # a fixed spread of small configurations explored exhaustively (capped), the rest randomly
         rng.shuffle(cfgs)
-        pick = [c for c in cfgs if c["senders"] * c["items"] <= 2 and c["receivers"] <= 2][:24]
-        for i in range(0, len(pick), 2):
-            shards.append({"kind": "dfs", "configs": pick[i:i + 2], "cap": 700})
+        # every small configuration (<= 2 items in total, <= 2 receivers) by DFS up to a cap, the rest by random schedules
+        pick = [c for c in cfgs if c["senders"] * c["items"] <= 2 and c["receivers"] <= 2]
+        n_dfs = 32
+        for i in range(n_dfs):
+            shards.append({"kind": "dfs", "configs": pick[i::n_dfs], "cap": 260})
         rest = [c for c in cfgs if c not in pick]
-        for i in range(4):
-            shards.append({"kind": "random", "configs": rest[i::4], "n_per": 6, "seed": seed * 31 + i})
+        for i in range(8):
+            shards.append({"kind": "random", "configs": rest[i::8], "n_per": 10, "seed": seed * 31 + i})
     else:
         for i in range(0, len(cfgs), 8):
             shards.append({"kind": "dfs", "configs": cfgs[i:i + 8], "cap": 4000})
